@@ -7,7 +7,7 @@ from mc.core import Acc, Hang
 
 ID = "C09"
 RULE = ("E-INPUT: the C07 datasets (<= 2 data quick, <= 3 thorough; numeric and datetime kinds) x 4 directions x domain "
-        "{derived, explicit} x 3 engine option sets x 2 size/padding/margin sets, each with one of 12 colour/border/tick-cross/dot-radius "
+        "{derived, explicit} x 3 engine option sets x 2 size/padding/margin sets, each with one of 15 colour/border/tick-cross/dot-radius/canvas/latex "
         "variants (3-digit hex, 6-digit hex, short colour lists that wrap around, functions of the datum, for dot/link/label "
         "background/label text/border colour, one at a time and all together) assigned in rotation so every variant meets every "
         "configuration. Two timelines from deep-copied data and separately built equal scales; SVG and TikZ exports parsed and "
@@ -34,11 +34,14 @@ VARIANTS = [
     {"dotColor": "abc", "linkColor": "A1B2C3"},
     {"dotRadius": 1.75, "labelBgColor": "#0a0"},
     {"dotRadius": 2.2, "layerGap": 23.4},
+    {"initialWidth": 52, "initialHeight": 49, "margin": {"left": 20, "right": 20, "top": 20, "bottom": 20}},  # ticks < 1 unit apart
+    {"latex": {"fontsize": "10pt"}, "labelBgColor": ["#111", "#eee", "#777"], "dotColor": ["#f00", "#0f0", "#00f"]},
+    {"latex": {"fontsize": "12pt", "linkThickness": "thin"}, "showBorder": True, "borderColor": ["#135", "#246"]},
 ]
 
 
 def bounds(tier, seed):
-    return {"max_data": 2 if tier == "quick" else 3, "variants": len(VARIANTS), "configs": 48}
+    return {"max_data": 2 if tier == "quick" else 3, "variants": len(VARIANTS), "configs": 64}
 
 
 def resolve(variant):
